@@ -2012,6 +2012,12 @@ def obs_fit_after_op(fit, where):
     st = {"values": p, "fixed": dict(fit._fitter.fixed_parameters), "limits": {k: list(v) for k, v in fit._fitter.limited_parameters.items()}}
     g.append(("post.parameters", st, 0.0, 0.0, where))
     cc = [float(c.cost(p)) for c in fit.parameter_constraints]
+    cf = fit._cost_function
+    needs_positive_model = "GaussApproximation" in type(cf).__name__ or "poisson" in str(getattr(cf, "name", "")).lower()
+    if not isinstance(fit, (CustomFit, UnbinnedFit)) and needs_positive_model and np.any(np.asarray(fit.model, dtype=float) <= 0):
+        # cost not defined at this point (see obs_fit_at_points): the model values are compared instead
+        g.append(("post.model", np.array(fit.model, dtype=float), ULP, 0.0, where))
+        return g
     g.append(("post.cost", float(fit.cost_function_value), LIN[0], LIN[1] + LIN[0] * sum(abs(x) for x in cc), where))
     return g
 
